@@ -180,6 +180,38 @@ func (c *PathCtx) evalCond(cond ssa.Value) (val bool, ok bool) {
 	return (eq == (b.Op == token.EQL)) != neg, true
 }
 
+// resolvedBoolKey: cond is (a negation of) a boolean phi that resolves on this path to a non-constant
+// boolean value: the key and polarity of that value.
+func (c *PathCtx) resolvedBoolKey(cond ssa.Value) (string, bool, bool) {
+	neg := false
+	for {
+		if u, ok := cond.(*ssa.UnOp); ok && u.Op == token.NOT {
+			neg = !neg
+			cond = u.X
+			continue
+		}
+		break
+	}
+	if _, isPhi := cond.(*ssa.Phi); !isPhi {
+		return "", false, false
+	}
+	rv := c.Resolve(cond)
+	if rv == cond {
+		return "", false, false
+	}
+	if _, isC := rv.(*ssa.Const); isC {
+		return "", false, false
+	}
+	if _, isPhi := rv.(*ssa.Phi); isPhi {
+		return "", false, false
+	}
+	key, pol := c.K.condKey(rv)
+	if neg {
+		pol = !pol
+	}
+	return key, pol, true
+}
+
 // NilState classifies an interface/pointer value on this path: +1 nil, -1 non-nil, 0 unknown.
 func (c *PathCtx) NilState(v ssa.Value) int {
 	// the path's own phi selection first: canonPhi (inside deref) describes a phi only at its uses
@@ -495,6 +527,11 @@ func (q *PathQuery) Run() {
 			if rk, rpol, ok := ctx.resolvedNilKey(t.Cond); ok {
 				// a nil test of a merged value: recorded for the value merged in on this path, so
 				// that NilState of that value is known afterwards
+				key, pol = rk, rpol
+			}
+			if rk, rpol, ok := ctx.resolvedBoolKey(t.Cond); ok {
+				// a merged boolean (exists = phi(false, lookup#1)): recorded under the condition that
+				// was merged in on this path
 				key, pol = rk, rpol
 			}
 			if _, have := q.condByKey[key]; !have {
